@@ -1,4 +1,5 @@
 import LibInj.Sqli.Check
+import LibInj.Proofs.QuoteShift
 set_option linter.unusedSimpArgs false
 /-! # C12 — IsSQLi equals the ordered disjunction of its documented parsing contexts
 
@@ -7,8 +8,13 @@ set_option linter.unusedSimpArgs false
 and is what the correspondence (`fp F` on a fresh state vs `is`) checks on the code.
 
 Proved: `isSQLi_cascade` (the cascade with its three gates, in order, first firing wins) and its two
-corollaries. Not yet a theorem: the quote-shift relation `fingerprint (q :: s) as-is = fingerprint s
-inside q` (statement `quote_shift_statement`; checked by the oracle on every generated input). -/
+corollaries; and the **token half of the quote-shift clause** (`quote_shift_tokens`): for every
+non-empty `x`, quote `q` and parsing mode, the raw token stream of `q :: x` read as-is and of `x` read
+inside `q` have the same length and agree pairwise in class, length, value, count and closing mark,
+with offsets and scan spans shifted by exactly one (only the first token's opening-quote mark
+differs) — the two scanners move in lock step (`tokLoop_shift`). Not yet a theorem: that `fold` maps
+such related streams to the same fingerprint (`quote_shift_statement`; checked by the oracle on every
+generated input). -/
 namespace LibInj.Properties.C12
 open LibInj LibInj.Sqli
 
@@ -78,6 +84,18 @@ def quote_shift_statement : Prop :=
   ∀ (s : Bytes) (q : UInt8) (d : Nat), s ≠ [] → (q = 39 ∨ q = 34) → (d = flagAnsi ∨ d = flagMysql) →
     ∀ st1 st2, fingerprint s ((if q = 39 then flagQuoteSingle else flagQuoteDouble) ||| d) = .ok st1 →
       fingerprint (q :: s) (flagQuoteNone ||| d) = .ok st2 → st1.fingerprint = st2.fingerprint
+
+/-- **C12, quote shift, tokens.** -/
+theorem quote_shift_tokens (x : Bytes) (hx : x ≠ []) (q : UInt8) (d : Nat) (hq : q = 39 ∨ q = 34)
+    (hd : d = flagAnsi ∨ d = flagMysql) :
+    ∃ ts1 sf1 ts2 sf2, rawTokens (q :: x) (flagQuoteNone ||| d) = .ok (ts1, sf1) ∧
+      rawTokens x ((if q = 39 then flagQuoteSingle else flagQuoteDouble) ||| d) = .ok (ts2, sf2) ∧
+      AllRel RawRel ts1 ts2 := by
+  rcases hq with rfl | rfl <;> rcases hd with rfl | rfl
+  · exact raw_tokens_quote_shift x hx 39 _ _ (Or.inl rfl) (by decide) (by decide) (by decide) (by decide) (by decide) ⟨by decide, by decide⟩
+  · exact raw_tokens_quote_shift x hx 39 _ _ (Or.inl rfl) (by decide) (by decide) (by decide) (by decide) (by decide) ⟨by decide, by decide⟩
+  · exact raw_tokens_quote_shift x hx 34 _ _ (Or.inr rfl) (by decide) (by decide) (by decide) (by decide) (by decide) ⟨by decide, by decide⟩
+  · exact raw_tokens_quote_shift x hx 34 _ _ (Or.inr rfl) (by decide) (by decide) (by decide) (by decide) (by decide) ⟨by decide, by decide⟩
 
 /-- non-vacuity: the hypotheses are met by a real input (`1' or 1=1`), evaluated by the kernel -/
 example : cascade [49] (true, [49], false) noPass noPass noPass noPass = (true, [49]) := by decide
